@@ -495,6 +495,9 @@ def narrow(R, P):
     first = [s for s in single if nonfinite_arm(s)]
     ok1 = len(first) == 1
     R.check(ok1, "NARROW", "non-finite-to-single", where(f, first[0]) if first else f.name, "NaN / infinities are written as single")
+    if first:
+        R.check(cast_of_value(RU.arg(f, first[0].node, 1), is_flt), "NARROW", "non-finite-keeps-the-value", where(f, first[0]), "the non-finite value written is (float)value itself (sign of the infinity, NaN)",
+                "the non-finite branch writes %s, not (float)value: -infinity is encoded as +infinity (or a NaN as something else)" % argstr(f, first[0].node, 1))
     if later_single:
         ls = later_single[0]
         R.check(len(eq_guard(ls, widened_back)) == 1, "NARROW", "single-iff-round-trip-equal", where(f, ls), "single exactly when (double)(float)value == value",
